@@ -110,6 +110,10 @@ pub enum Call {
     N(u8),
     /// `nth_back(k)`
     M(u8),
+    /// `last()` — consumes the iterator: only as the final call
+    Z,
+    /// `count()` — consumes the iterator: only as the final call
+    C,
 }
 impl Call {
     pub fn ch(self) -> String {
@@ -120,6 +124,8 @@ impl Call {
             Call::H => "h".into(),
             Call::N(k) => format!("n{}", k),
             Call::M(k) => format!("m{}", k),
+            Call::Z => "z".into(),
+            Call::C => "c".into(),
         }
     }
 }
@@ -187,11 +193,14 @@ pub enum Op {
     PopIf(u8, W, bool),
     RetainMut(Vec<Row>),
     Retain(Vec<Row>),
-    IterMut { forget: bool, prog: Vec<(Call, W)> },
+    /// `forget`: the guard is `mem::forget`-ten; `late`: the yielded references are collected, the guard is dropped (heap
+    /// rebuilt) and only THEN the writes are performed (what `iter_mut().collect::<Vec<_>>()` allows)
+    IterMut { forget: bool, late: bool, prog: Vec<(Call, W)> },
     Extend { lo: u64, hi: Option<u64>, xs: Vec<E> },
     FromIter { lo: u64, hi: Option<u64>, xs: Vec<E> },
     FromVec(Vec<E>),
-    Append(Vec<E>),
+    /// `append(other)`: `other` is built by pushing the pairs into a queue created `with_capacity(cap)`
+    Append(u64, Vec<E>),
     Convert,
     SerdeRt(Kind),
     Deser(Vec<E>),
@@ -280,7 +289,7 @@ impl Op {
             Extend { .. } => "extend",
             FromIter { .. } => "from_iter",
             FromVec(_) => "from_vec",
-            Append(_) => "append",
+            Append(..) => "append",
             Convert => "convert",
             SerdeRt(_) => "serde_rt",
             Deser(_) => "deser",
@@ -334,15 +343,16 @@ impl Op {
             PeekMut(pl) | PeekMinMut(pl) | PeekMaxMut(pl) => format!("{} {}", n, pl),
             PopIf(_, w, ret) => format!("{} {} {}", n, w.line(), *ret as u8),
             RetainMut(r) | Retain(r) => format!("{} {}", n, rows(r)),
-            IterMut { forget, prog } => {
-                let mut s = format!("{} {} {}", n, if *forget { "forget" } else { "drop" }, prog.len());
+            IterMut { forget, late, prog } => {
+                let mut s = format!("{} {} {}", n, if *late { "late" } else if *forget { "forget" } else { "drop" }, prog.len());
                 for (c, w) in prog {
                     write!(s, " {} {}", c.ch(), w.line()).unwrap();
                 }
                 s
             }
             Extend { lo, hi, xs } | FromIter { lo, hi, xs } => format!("{} {} {} {}", n, lo, optn(*hi), es(xs)),
-            FromVec(xs) | Append(xs) | Deser(xs) | Eq(xs) => format!("{} {}", n, es(xs)),
+            FromVec(xs) | Deser(xs) | Eq(xs) => format!("{} {}", n, es(xs)),
+            Append(cap, xs) => format!("{} {} {}", n, cap, es(xs)),
             SerdeRt(k) => format!("{} {}", n, k.name()),
             Drain { forget, calls: c } => format!("{} {} {}", n, if *forget { "forget" } else { "drop" }, calls(c)),
             Iter(c) | IntoIter(c) | IntoSortedIter(c) => format!("{} {}", n, calls(c)),
@@ -387,18 +397,20 @@ impl Op {
             "retain_mut" => RetainMut(t.rows()?),
             "retain" => Retain(t.rows()?),
             "iter_mut" => {
-                let forget = t.tok()? == "forget";
+                let mode = t.tok()?;
+                let forget = mode == "forget";
+                let late = mode == "late";
                 let n = t.u()?;
                 let mut prog = vec![];
                 for _ in 0..n {
                     prog.push((t.call()?, t.w()?));
                 }
-                IterMut { forget, prog }
+                IterMut { forget, late, prog }
             }
             "extend" => Extend { lo: t.u()?, hi: t.optu()?, xs: t.es()? },
             "from_iter" => FromIter { lo: t.u()?, hi: t.optu()?, xs: t.es()? },
             "from_vec" => FromVec(t.es()?),
-            "append" => Append(t.es()?),
+            "append" => Append(t.u()?, t.es()?),
             "convert" => Convert,
             "serde_rt" => SerdeRt(if t.tok()? == "dpq" { Kind::Dpq } else { Kind::Pq }),
             "deser" => Deser(t.es()?),
@@ -475,6 +487,8 @@ impl<'a> Toks<'a> {
             "b" => Call::B,
             "l" => Call::L,
             "h" => Call::H,
+            "z" => Call::Z,
+            "c" => Call::C,
             x if x.starts_with('n') => Call::N(x[1..].parse().map_err(|e| format!("{:?}", e))?),
             x if x.starts_with('m') => Call::M(x[1..].parse().map_err(|e| format!("{:?}", e))?),
             x => return Err(format!("bad call {}", x)),
@@ -550,12 +564,17 @@ fn mk(xs: &[E]) -> Vec<(SItem, Pri)> {
     xs.iter().map(|(k, pl, p)| (SItem::new(*k, *pl), Pri::new(*p))).collect()
 }
 
-fn run_calls<T, I>(it: &mut I, cs: &[Call], show: impl Fn(&T) -> String) -> String
+fn run_calls<T, I>(it: I, cs: &[Call], forget: bool, show: impl Fn(&T) -> String) -> String
 where
     I: DoubleEndedIterator<Item = T> + ExactSizeIterator,
 {
     let mut out = String::new();
+    let mut slot = Some(it);
     for c in cs {
+        let it = match slot.as_mut() {
+            Some(i) => i,
+            None => { out.push_str(" gone"); continue; }
+        };
         match c {
             Call::F => match it.next() {
                 Some(x) => write!(out, " s some {}", show(&x)).unwrap(),
@@ -581,7 +600,15 @@ where
                     None => write!(out, " h {} none", lo).unwrap(),
                 }
             }
+            Call::Z => match slot.take().unwrap().last() {
+                Some(x) => write!(out, " s some {}", show(&x)).unwrap(),
+                None => out.push_str(" s none"),
+            },
+            Call::C => write!(out, " l {}", slot.take().unwrap().count()).unwrap(),
         }
+    }
+    if forget {
+        if let Some(i) = slot { std::mem::forget(i); }
     }
     out
 }
@@ -719,56 +746,70 @@ pub fn apply<H: BuildHasher + Default + Clone>(q: &mut AnyQ<H>, op: &Op, lk: Loo
             for k in log { write!(s, " {}", k).unwrap(); }
             s
         }
-        IterMut { forget, prog } => {
+        IterMut { forget, late, prog } => {
             let mut out = String::new();
             // addresses of everything yielded so far: two equal addresses = aliased `&mut`
             let mut addrs: Vec<usize> = vec![];
             let mut alias = false;
+            // in `late` mode the yielded references are kept and written only after the guard is gone
+            let mut kept: Vec<((&mut SItem, &mut Pri), W)> = vec![];
+            macro_rules! yielded {
+                ($r:expr, $w:expr) => {
+                    match $r {
+                        Some((i, p)) => {
+                            let a = i as *mut SItem as usize;
+                            if addrs.contains(&a) { alias = true; }
+                            addrs.push(a);
+                            write!(out, " s some {}", ent(i, p)).unwrap();
+                            if *late { kept.push(((i, p), *$w)); } else { $w.apply(i, p); }
+                        }
+                        None => out.push_str(" s none"),
+                    }
+                };
+            }
             match q {
                 AnyQ::Pq(x) => {
-                    let mut it = x.iter_mut();
+                    let mut slot = Some(x.iter_mut());
                     for (c, w) in prog {
+                        let it = match slot.as_mut() { Some(i) => i, None => { out.push_str(" gone"); continue; } };
                         match c {
-                            Call::F | Call::N(_) => match (if let Call::N(k) = c { it.nth(*k as usize) } else { it.next() }) {
-                                Some((i, p)) => {
-                                    let a = i as *mut SItem as usize;
-                                    if addrs.contains(&a) { alias = true; }
-                                    addrs.push(a);
-                                    write!(out, " s some {}", ent(i, p)).unwrap();
-                                    w.apply(i, p);
-                                }
+                            Call::F => yielded!(it.next(), w),
+                            Call::N(k) => yielded!(it.nth(*k as usize), w),
+                            Call::H => out.push_str(&hint_str(it.size_hint())),
+                            // `last()` / `count()` consume the guard (rebuild happens inside); the element `last()` returns
+                            // is reported but not written
+                            Call::Z => match slot.take().unwrap().last() {
+                                Some((i, p)) => write!(out, " s some {}", ent(i, p)).unwrap(),
                                 None => out.push_str(" s none"),
                             },
-                            Call::H => out.push_str(&hint_str(it.size_hint())),
+                            Call::C => write!(out, " l {}", slot.take().unwrap().count()).unwrap(),
                             _ => out.push_str(" u"),
                         }
                     }
-                    if *forget { std::mem::forget(it); }
+                    if let Some(it) = slot { if *forget { std::mem::forget(it); } else { drop(it); } }
                 }
                 AnyQ::Dpq(x) => {
-                    let mut it = x.iter_mut();
+                    let mut slot = Some(x.iter_mut());
                     for (c, w) in prog {
+                        let it = match slot.as_mut() { Some(i) => i, None => { out.push_str(" gone"); continue; } };
                         match c {
-                            Call::F | Call::B | Call::N(_) | Call::M(_) => {
-                                let r = match c { Call::F => it.next(), Call::B => it.next_back(), Call::N(k) => it.nth(*k as usize), Call::M(k) => it.nth_back(*k as usize), _ => unreachable!() };
-                                match r {
-                                    Some((i, p)) => {
-                                        let a = i as *mut SItem as usize;
-                                        if addrs.contains(&a) { alias = true; }
-                                        addrs.push(a);
-                                        write!(out, " s some {}", ent(i, p)).unwrap();
-                                        w.apply(i, p);
-                                    }
-                                    None => out.push_str(" s none"),
-                                }
-                            }
+                            Call::F => yielded!(it.next(), w),
+                            Call::B => yielded!(it.next_back(), w),
+                            Call::N(k) => yielded!(it.nth(*k as usize), w),
+                            Call::M(k) => yielded!(it.nth_back(*k as usize), w),
                             Call::L => write!(out, " l {}", it.len()).unwrap(),
                             Call::H => out.push_str(&hint_str(it.size_hint())),
+                            Call::Z => match slot.take().unwrap().last() {
+                                Some((i, p)) => write!(out, " s some {}", ent(i, p)).unwrap(),
+                                None => out.push_str(" s none"),
+                            },
+                            Call::C => write!(out, " l {}", slot.take().unwrap().count()).unwrap(),
                         }
                     }
-                    if *forget { std::mem::forget(it); }
+                    if let Some(it) = slot { if *forget { std::mem::forget(it); } else { drop(it); } }
                 }
             }
+            for ((i, p), w) in kept { w.apply(i, p); }
             if alias { out.push_str(" ALIASED"); }
             out
         }
@@ -792,9 +833,9 @@ pub fn apply<H: BuildHasher + Default + Clone>(q: &mut AnyQ<H>, op: &Op, lk: Loo
             };
             "unit".into()
         }
-        Append(xs) => match q {
+        Append(cap, xs) => match q {
             AnyQ::Pq(x) => {
-                let mut o: PriorityQueue<SItem, Pri, H> = PriorityQueue::with_default_hasher();
+                let mut o: PriorityQueue<SItem, Pri, H> = PriorityQueue::with_capacity_and_default_hasher(*cap as usize);
                 // building the other queue is not part of the operation under test: an armed comparison fuse is
                 // suspended while it is built and re-armed relative to the comparisons it consumed
                 let (f0, c0) = (FUSE.with(|f| f.replace(0)), cmp_count());
@@ -806,7 +847,7 @@ pub fn apply<H: BuildHasher + Default + Clone>(q: &mut AnyQ<H>, op: &Op, lk: Loo
                 format!("olen {} omap {} oh {} oq {}", o.len(), m, h.len(), qp.len())
             }
             AnyQ::Dpq(x) => {
-                let mut o: DoublePriorityQueue<SItem, Pri, H> = DoublePriorityQueue::with_default_hasher();
+                let mut o: DoublePriorityQueue<SItem, Pri, H> = DoublePriorityQueue::with_capacity_and_default_hasher(*cap as usize);
                 let (f0, c0) = (FUSE.with(|f| f.replace(0)), cmp_count());
                 for (i, p) in mk(xs) { o.push(i, p); }
                 if f0 != 0 { FUSE.with(|f| f.set(f0)); }
@@ -838,16 +879,11 @@ pub fn apply<H: BuildHasher + Default + Clone>(q: &mut AnyQ<H>, op: &Op, lk: Loo
             deser_both(q, &text, q.kind())
         }
         Clear => { both!(q, x => x.clear()); "unit".into() }
-        Drain { forget, calls: cs } => both!(q, x => {
-            let mut it = x.drain();
-            let out = run_calls(&mut it, cs, |(i, p): &(SItem, Pri)| ent(i, p));
-            if *forget { std::mem::forget(it); }
-            out
-        }),
-        Iter(cs) => both!(q, x => { let mut it = x.iter(); run_calls(&mut it, cs, |(i, p): &(&SItem, &Pri)| ent(i, p)) }),
+        Drain { forget, calls: cs } => both!(q, x => run_calls(x.drain(), cs, *forget, |(i, p): &(SItem, Pri)| ent(i, p))),
+        Iter(cs) => both!(q, x => run_calls(x.iter(), cs, false, |(i, p): &(&SItem, &Pri)| ent(i, p))),
         IntoIter(cs) => {
             let c = q.clone_q();
-            both!(c, x => { let mut it = x.into_iter(); run_calls(&mut it, cs, |(i, p): &(SItem, Pri)| ent(i, p)) })
+            both!(c, x => run_calls(x.into_iter(), cs, false, |(i, p): &(SItem, Pri)| ent(i, p)))
         }
         IntoVec => { let c = q.clone_q(); keys(&both!(c, x => x.into_vec())) }
         IntoSortedVec => match q.clone_q() { AnyQ::Pq(x) => keys(&x.into_sorted_vec()), _ => unreachable!() },
@@ -855,22 +891,22 @@ pub fn apply<H: BuildHasher + Default + Clone>(q: &mut AnyQ<H>, op: &Op, lk: Loo
         IntoDescVec => match q.clone_q() { AnyQ::Dpq(x) => keys(&x.into_descending_sorted_vec()), _ => unreachable!() },
         IntoSortedIter(cs) => match q.clone_q() {
             AnyQ::Pq(x) => {
-                let mut it = x.into_sorted_iter();
+                let mut slot = Some(x.into_sorted_iter());
                 let mut out = String::new();
                 for c in cs {
+                    let it = match slot.as_mut() { Some(i) => i, None => { out.push_str(" gone"); continue; } };
                     match c {
                         Call::F => out.push_str(&format!(" s {}", opt_eo(&it.next()))),
                         Call::N(k) => out.push_str(&format!(" s {}", opt_eo(&it.nth(*k as usize)))),
                         Call::H => out.push_str(&hint_str(it.size_hint())),
+                        Call::Z => out.push_str(&format!(" s {}", opt_eo(&slot.take().unwrap().last()))),
+                        Call::C => out.push_str(&format!(" l {}", slot.take().unwrap().count())),
                         _ => out.push_str(" u"),
                     }
                 }
                 out
             }
-            AnyQ::Dpq(x) => {
-                let mut it = x.into_sorted_iter();
-                run_calls(&mut it, cs, |(i, p): &(SItem, Pri)| ent(i, p))
-            }
+            AnyQ::Dpq(x) => run_calls(x.into_sorted_iter(), cs, false, |(i, p): &(SItem, Pri)| ent(i, p)),
         },
         Len => format!("{}", q.len()),
         IsEmpty => format!("{}", both!(q, x => x.is_empty())),
